@@ -203,6 +203,37 @@ impl SubscriptionActor {
                 let _ = responder.send(result);
             }
         }
+        #[cfg(deltio_verif)]
+        crate::verif_ev!("sub {} state {}", self.internal_id, self.verif_digest());
+    }
+
+    /// A digest of the whole actor state (backlog order, outstanding deliveries, next expiration).
+    #[cfg(deltio_verif)]
+    fn verif_digest(&self) -> String {
+        const P: u128 = 2305843009213693951;
+        let mut h: u128 = 0;
+        for m in self.backlog.list.iter() {
+            h = (h * 1000003 + m.id.value as u128) % P;
+        }
+        let (messages, _) = self.outstanding.verif_snapshot();
+        let mut x: u128 = 0;
+        for (ack, id, deadline) in messages.iter() {
+            let d = crate::verif::micros(*deadline);
+            x = (x + ((*ack as u128 * 1000003 + *id as u128) % P * 1000003 + d) % P) % P;
+        }
+        let next = self
+            .outstanding
+            .next_expiration()
+            .map(|d| crate::verif::micros(d.time()).to_string())
+            .unwrap_or("-".to_string());
+        format!(
+            "{} {} {} {} {}",
+            self.backlog.len(),
+            h,
+            messages.len(),
+            x,
+            next
+        )
     }
 
     /// Gets info about the subscription.
@@ -426,6 +457,8 @@ impl SubscriptionActor {
             self.outstanding.len(),
             !self.backlog.is_empty() as u8
         );
+        #[cfg(deltio_verif)]
+        crate::verif_ev!("sub {} state {}", self.internal_id, self.verif_digest());
     }
 }
 
